@@ -341,6 +341,12 @@ def table(ctx, facts, roles, truthy, cfg):
                 rows.setdefault((vp[1], False), set()).add(not vp[2])
             elif vp[0] == "other-test":
                 rows.setdefault(("decided by", vp[1]), set()).add(True)
+        if v == "Number" and unread:
+            # whatever the unreadable test is: one that consults the integer spelling of the number (as_i64 is None for
+            # 0.0 and -0.0, Some(0) for 0) is read, and is not the number's value as a double
+            bad_acc = sorted(accessors - {"as_f64"})
+            if bad_acc:
+                ctx.fail("K3.number-as-double", key, "a number's truthiness is not taken from its value as a double (accessors: %s): 0.0 and 0 can be told apart" % sorted(accessors), where=where, fn=truthy.key)
         if unread:
             ctx.unread("K3.table", key, "result not readable as a constant, the payload or a zero/emptiness test: %s" % unread[:2], where=where, fn=truthy.key)
             continue
